@@ -24,10 +24,13 @@ PARSE_INPUTS = [
     "GROUP = g\n  a =\nEND_GROUP\nq = 'x'\nEND\n",
     "GROUP = g\n  OBJECT = o\n    a = 1\n  END_OBJECT = wrong_name\nEND_GROUP\nEND\n",
     "OBJECT = h\n  GROUP = k\n    a = 1\n",
+    "a = 1 # note\nb = +x\nEND\n",
+    "x = */\ny = a*/\n",
 ]
 INPUT_CLASS = {1: "clean", 2: "missing-values", 3: "missing-values", 4: "fails-after-repair", 5: "fails-at-once",
-               6: "dash-continuation", 7: "disallowed-char", 8: "missing-in-block", 9: "fails-inside-block", 10: "truncated-inside-block"}
-DECODE_INPUTS = ["1", "'abc'", "2001-01-01", "a b", "16#FF#", "12:00:60", "NULL", "1.5e3", "23:59:60", "2001-366"]
+               6: "dash-continuation", 7: "disallowed-char", 8: "missing-in-block", 9: "fails-inside-block", 10: "truncated-inside-block",
+               11: "hash-comment", 12: "comment-end-in-word"}
+DECODE_INPUTS = ["1", "'abc'", "2001-01-01", "a b", "16#FF#", "12:00:60", "NULL", "1.5e3", "23:59:60", "2001-366", "*/", "a*/"]
 
 
 def encode_inputs():
@@ -44,10 +47,13 @@ def encode_inputs():
         PVLModule(k={1.5, "a b"}),
         PVLModule(a="caf\u0101"),                  # a character no dialect's character set has
         PVLModule([("b", "x\u0101y"), ("c", 2)]),
+        PVLModule([("o", PVLObject([("h", PVLObject(a=True))])), ("t", datetime.time(12, 0, 0))]),
+        PVLModule([("g", PVLGroup([("s", "12:00-01"), ("n", None)]))]),
     ]
 
 
-NENC = 10
+NENC = 12
+NIN = 12
 
 
 def kinds():
@@ -65,6 +71,30 @@ def kinds():
 
     def dec_call(inst, x):
         return {"value": project(inst.decode(DECODE_INPUTS[x]))}
+
+    # through the module-level functions with a caller-supplied instance; some calls also name a grammar / decoder or
+    # formatting options, which must not stick to the instance
+    def loads_call(inst, x):
+        kw = {}
+        if x % 3 == 1:
+            kw["grammar"] = G.PVLGrammar()
+        elif x % 3 == 2:
+            kw["decoder"] = D.PVLDecoder(G.PVLGrammar())
+        m = pvl.loads(PARSE_INPUTS[x], parser=inst, **kw)
+        return {"module": project(m), "errors": list(getattr(m, "errors", []))}
+
+    def dumps_call(inst, x):
+        kw = {}
+        if x % 4 == 1:
+            kw["grammar"] = G.ISISGrammar()
+        elif x % 4 == 2:
+            kw["decoder"] = D.PVLDecoder(G.PVLGrammar())
+        elif x % 4 == 3:
+            kw.update(indent=6, width=40)
+        return {"text": pvl.dumps(_G["encode_inputs"]()[x], encoder=inst, **kw)}
+    ks["pvl.loads(parser=OmniParser, [grammar=|decoder=])"] = (lambda: P.OmniParser(), None, loads_call, len(PARSE_INPUTS))
+    ks["pvl.dumps(encoder=PVLEncoder, [grammar=|decoder=|indent=,width=])"] = (lambda: E.PVLEncoder(), None, dumps_call, NENC)
+    ks["pvl.dumps(encoder=PDSLabelEncoder, [grammar=|decoder=|indent=,width=])"] = (lambda: E.PDSLabelEncoder(), None, dumps_call, NENC)
     ks["PVLParser"] = (lambda: P.PVLParser(grammar=G.PVLGrammar(), decoder=D.PVLDecoder(G.PVLGrammar())), None, parse_call, len(PARSE_INPUTS))
     ks["ODLParser"] = (lambda: P.ODLParser(grammar=G.ODLGrammar(), decoder=D.ODLDecoder(G.ODLGrammar())), None, parse_call, len(PARSE_INPUTS))
     ks["ODLParser/PDS3"] = (lambda: P.ODLParser(grammar=G.PDSGrammar(), decoder=D.PDSLabelDecoder(G.PDSGrammar())), None, parse_call, len(PARSE_INPUTS))
@@ -101,22 +131,19 @@ def _alarm(*a):
 
 
 def outcome(call, inst, x):
-    signal.signal(signal.SIGALRM, _alarm)
-    signal.alarm(5)
+    from .. import loaders
     try:
-        with warnings.catch_warnings():
+        with loaders.watchdog(10), warnings.catch_warnings():
             warnings.simplefilter("ignore")
             r = call(inst, x)
         return digest({"ok": r}), r
-    except _Timeout:
+    except loaders.Hang:
         return "hang", "hang"
     except Exception as e:
         import re
         d = {"exc": type(e).__name__, "msg": re.sub(r"0x[0-9a-fA-F]+", "0x?", str(e))[:300],
              "pos": [getattr(e, a, None) for a in ("pos", "lineno", "colno")]}
         return digest(d), d
-    finally:
-        signal.alarm(0)
 
 
 def _session(job):
@@ -140,7 +167,7 @@ def run(ctx, rep):
     _G["kinds"] = kinds()
     _G["encode_inputs"] = encode_inputs
     D = 4 if ctx.thorough else 3
-    rep.rule = ("every call history of length %d over a 10-input pool (clean, missing values, failing part-way, "
+    rep.rule = ("every call history of length %d over a 12-input pool (clean, missing values, failing part-way, "
                 "failing at once, dash continuation, disallowed character, nested block ...) enumerated by TLC from "
                 "spec/Session.tla, issued to one long-lived instance of each of %d parser/encoder/decoder kinds "
                 "(classes and the CLI module-level instances) next to a fresh instance; judged by TLC with "
@@ -154,12 +181,12 @@ def run(ctx, rep):
             raise RuntimeError("Session model check %s: unexpected result %r" % (name, r.violation))
     p = os.path.join(ctx.scratch, "sess.cfg")
     with open(p, "w") as f:
-        f.write("SPECIFICATION Spec\nCONSTANT NInputs = 10\nCONSTANT D = %d\nCONSTANT Reset = TRUE\nCONSTANT Emit = TRUE\n"
-                "INVARIANT NoLeak\nINVARIANT EmitHist\nCHECK_DEADLOCK FALSE\n" % D)
+        f.write("SPECIFICATION Spec\nCONSTANT NInputs = %d\nCONSTANT D = %d\nCONSTANT Reset = TRUE\nCONSTANT Emit = TRUE\n"
+                "INVARIANT NoLeak\nINVARIANT EmitHist\nCHECK_DEADLOCK FALSE\n" % (NIN, D))
     r = tlc.run("Session", p, workers=1, scratch=ctx.scratch)
-    rep.tlc("Session: all call histories of length %d over 10 inputs" % D, r)
+    rep.tlc("Session: all call histories of length %d over %d inputs" % (D, NIN), r)
     hists = [x["h"] for x in r.printed]
-    if len(hists) != 10 ** D:
+    if len(hists) != NIN ** D:
         raise RuntimeError("expected %d histories, got %d" % (10 ** D, len(hists)))
     rep.exhaustive["histories of length %d x %d instance kinds" % (D, len(_G["kinds"]))] = True
     # long-lived module-level instances are shared by all histories in one process: run those serially per kind,
